@@ -371,6 +371,11 @@ pub enum Stage {
     Rev,
     MapId,
     Take { k: usize },
+    /// std `step_by(k)` (declared trusted-length by the library)
+    StepBy { k: usize },
+    /// turn the stream into an honest but *untrusted* iterator whose size hint is loose
+    /// (`filter` dropping every m-th item: lower bound 0, upper bound too large)
+    Loose { m: usize },
     /// collect what is left by plain safe iteration into a fresh container, continue with `op`
     Remat { backend: Backend, op: ViewOp },
     VCut { bins: Vec<Val>, labels: Vec<Val>, right: bool, add_bounds: bool },
@@ -390,6 +395,8 @@ impl Stage {
             Stage::Rev => "rev",
             Stage::MapId => "map",
             Stage::Take { .. } => "take",
+            Stage::StepBy { .. } => "step_by",
+            Stage::Loose { .. } => "filter",
             Stage::Remat { op, .. } => op.kind(),
             Stage::VCut { .. } => "vcut",
         }
@@ -397,7 +404,7 @@ impl Stage {
     /// stages that must preserve the number of remaining items (oracle H3)
     pub fn length_preserving(&self) -> bool {
         match self {
-            Stage::Take { .. } => false,
+            Stage::Take { .. } | Stage::StepBy { .. } | Stage::Loose { .. } => false,
             Stage::Remat { op, .. } => matches!(
                 op,
                 ViewOp::Titer
@@ -428,7 +435,9 @@ impl Stage {
             Stage::FFill { fill } | Stage::BFill { fill } => J::obj(vec![k, ("fill", optval_to_j(fill))]),
             Stage::Fill { v } => J::obj(vec![k, ("v", v.to_j())]),
             Stage::VClip { lo, hi } => J::obj(vec![k, ("lo", lo.to_j()), ("hi", hi.to_j())]),
-            Stage::Take { k: kk } => J::obj(vec![k, ("n", J::Int(*kk as i64))]),
+            Stage::Take { k: kk } | Stage::StepBy { k: kk } | Stage::Loose { m: kk } => {
+                J::obj(vec![k, ("n", J::Int(*kk as i64))])
+            },
             Stage::Remat { backend, op } => {
                 J::obj(vec![k, ("backend", backend.to_j()), ("op", op.to_j())])
             },
@@ -462,6 +471,8 @@ impl Stage {
             "rev" => Stage::Rev,
             "map" => Stage::MapId,
             "take" => Stage::Take { k: j.req("n")?.as_usize()? },
+            "step_by" => Stage::StepBy { k: j.req("n")?.as_usize()? },
+            "filter" => Stage::Loose { m: j.req("n")?.as_usize()? },
             "remat" => Stage::Remat {
                 backend: Backend::from_j(j.req("backend")?)?,
                 op: ViewOp::from_j(j.req("op")?)?,
@@ -561,6 +572,8 @@ pub enum BufKind {
     Deque,
     /// `ArrayViewMut1<MaybeUninit<T>>`
     NdView,
+    /// a strided `ArrayViewMut1<MaybeUninit<T>>` into a larger buffer (every 2nd slot)
+    NdStrided,
     /// simulator-owned logging buffer
     Sim,
     /// `UninitVec::set` / `uset` on the owned uninit container, then `assume_init`
@@ -573,6 +586,7 @@ impl BufKind {
             BufKind::Slice => "slice",
             BufKind::Deque => "deque",
             BufKind::NdView => "ndview",
+            BufKind::NdStrided => "ndstrided",
             BufKind::Sim => "sim",
             BufKind::OwnedVec => "owned_vec",
         }
@@ -582,6 +596,7 @@ impl BufKind {
             "slice" => BufKind::Slice,
             "deque" => BufKind::Deque,
             "ndview" => BufKind::NdView,
+            "ndstrided" => BufKind::NdStrided,
             "sim" => BufKind::Sim,
             "owned_vec" => BufKind::OwnedVec,
             _ => return Err(format!("bad buf {s}")),
